@@ -38,6 +38,10 @@ func (c14) Gen(r *rand.Rand, tier string, run int) *core.Case {
 	if r.IntN(4) == 0 {
 		c.Params["unset_level"] = 1
 	}
+	if r.IntN(4) == 0 {
+		c.Params["broken"] = 1
+		c.Params["break_after"] = r.IntN(80)
+	}
 	next := int64(1)
 	total := 0
 	for k := 0; k < clients && total < 13; k++ {
@@ -175,6 +179,33 @@ func (c14) Run(c *core.Case, env *core.Env) {
 			}
 		}
 		env.Probe("object-instrumented")
+	}
+	if c.P("broken", 0) == 1 {
+		// a subscriber of the property registered before everybody else that
+		// becomes unreachable at some moment: the register and the events of
+		// the others must not depend on it (the writer is told that one
+		// subscriber could not be reached; the write stands)
+		vpair := len(env.NW.Conns())
+		vcl, err := Connect("victim", "u", "p")
+		if err != nil {
+			env.Violate("setup/connect", "%v", err)
+			return
+		}
+		vp, err := ProbeProxy(vcl, w.ServiceID, target)
+		if err != nil {
+			env.Violate("setup/proxy", "%v", err)
+			return
+		}
+		_, vch, err := vp.SubscribeLevel()
+		if err != nil {
+			env.Violate("setup/subscribe", "%v", err)
+			return
+		}
+		go func() {
+			for range vch {
+			}
+		}()
+		BreakWritesLater(env, env.NW.Conns()[vpair], c.P("break_after", 0))
 	}
 	// churning subscribers register first (so that they are not the last
 	// entries of the server's table) and leave during the run
@@ -363,7 +394,9 @@ func (c14) Check(c *core.Case, env *core.Env, res zzsim.Result, v *core.Verdict)
 		v.OpsDone++
 		switch h.Kind {
 		case "set", "update":
-			if h.OK {
+			if h.OK || containsStr(h.Err, "victim-broken") {
+				// (a write whose announcement could not reach one subscriber
+				// is reported as such to the writer, and stands)
 				n, _ := strconv.Atoi(h.Arg)
 				accepted = append(accepted, int32(n))
 			} else if !containsStr(h.Err, "consumer blocked") {
